@@ -1,4 +1,109 @@
-(* temporary *)
-From PGF Require Import Base.Prelude Model.Annotation.
-Theorem C19_placeholder : True. Proof. exact I. Qed.
-Print Assumptions C19_placeholder.
+(* C19 — FASTA header fields and annotation columns are extracted exactly.
+   Statements only.  Headers are composed as  db|acc|entry desc OS=org OX=.. [GN=gene] PE=d SV=..;
+   the well-formedness hypotheses are the UniProt grammar: identifier parts without space or '|', gene without
+   space, and the field separators " OS=", " GN=", " PE=" not occurring inside the fields before them. *)
+From PGF Require Import Base.Prelude Base.PyStr Model.Grouping Model.Fasta Model.Annotation Proofs.AnnotationProofs.
+
+(* str.split: the first occurrence of a separator that begins with a character occurring nowhere else in it ends the
+   first piece (this is what every field parser rests on), and join inverts split *)
+Theorem C19_split_field : forall c rest a b, ~ In c rest -> contains (c :: rest) a = false ->
+  split_on (c :: rest) (a ++ (c :: rest) ++ b) = a :: split_on (c :: rest) b.
+Proof. exact split_field. Qed.
+Print Assumptions C19_split_field.
+
+Theorem C19_join_split : forall sep s, sep <> [] -> join sep (split_on sep s) = s.
+Proof. exact join_split. Qed.
+Print Assumptions C19_join_split.
+
+(* protein identifier, accession, entry name *)
+Theorem C19_full_id : forall db acc entry rest,
+  (~ In 124%N db /\ ~ In 32%N db) -> (~ In 124%N acc /\ ~ In 32%N acc) -> (~ In 124%N entry /\ ~ In 32%N entry) ->
+  id_of IdFull ((db ++ bar ++ acc ++ bar ++ entry) ++ sp ++ rest) = Some (db ++ bar ++ acc ++ bar ++ entry).
+Proof. exact full_id_roundtrip. Qed.
+Print Assumptions C19_full_id.
+
+Theorem C19_accession : forall db acc entry rest,
+  (~ In 124%N db /\ ~ In 32%N db) -> (~ In 124%N acc /\ ~ In 32%N acc) -> (~ In 124%N entry /\ ~ In 32%N entry) ->
+  parse_uniprot_id ((db ++ bar ++ acc ++ bar ++ entry) ++ sp ++ rest) = acc.
+Proof. exact uniprot_id_roundtrip. Qed.
+Print Assumptions C19_accession.
+
+Theorem C19_entry_name : forall db acc entry rest,
+  (~ In 124%N db /\ ~ In 32%N db) -> (~ In 124%N acc /\ ~ In 32%N acc) -> (~ In 124%N entry /\ ~ In 32%N entry) ->
+  parse_entry_name ((db ++ bar ++ acc ++ bar ++ entry) ++ sp ++ rest) = entry.
+Proof. exact entry_name_roundtrip. Qed.
+Print Assumptions C19_entry_name.
+
+(* description (may contain spaces, brackets, the words OS/GN/PE - only not the separator " OS=") *)
+Theorem C19_description : forall idt desc rest,
+  ~ In 32%N idt -> contains s_OS (idt ++ sp ++ desc) = false ->
+  parse_protein_name (idt ++ sp ++ desc ++ s_OS ++ rest) = desc.
+Proof. exact description_roundtrip. Qed.
+Print Assumptions C19_description.
+
+(* gene name, and its absence *)
+Theorem C19_gene_name : forall x g y,
+  contains s_GN x = false -> ~ In 32%N g -> contains s_GN (g ++ sp ++ y) = false ->
+  parse_gene_name (x ++ s_GN ++ g ++ sp ++ y) = Some g.
+Proof. exact gene_name_roundtrip. Qed.
+Print Assumptions C19_gene_name.
+
+Theorem C19_gene_name_absent : forall h, contains s_GN h = false -> parse_gene_name h = None.
+Proof. exact gene_name_absent. Qed.
+Print Assumptions C19_gene_name_absent.
+
+(* organism, for headers that carry a gene name *)
+Theorem C19_organism : forall x org y,
+  contains s_OS x = false -> contains s_GN org = false -> contains s_OS (org ++ s_GN ++ y) = false ->
+  parse_organism (x ++ s_OS ++ org ++ s_GN ++ y) = Some org.
+Proof. exact organism_roundtrip. Qed.
+Print Assumptions C19_organism.
+
+(* existence level *)
+Theorem C19_existence : forall x (d : N) y,
+  (d <= 9)%N -> contains s_PE x = false -> contains s_PE ([(48 + d)%N] ++ sp ++ y) = false ->
+  parse_existence (x ++ s_PE ++ [(48 + d)%N] ++ sp ++ y) = Ok (Some d).
+Proof. exact existence_roundtrip. Qed.
+Print Assumptions C19_existence.
+
+(* sequence length *)
+Theorem C19_length : forall r h seq k a, mk_annot r (h, seq) = Ok (k, a) -> a_length a = length seq.
+Proof. exact length_is_sequence_length. Qed.
+Print Assumptions C19_length.
+
+(* within one file the first record wins for a repeated identifier *)
+Theorem C19_first_record_wins : forall r recs d k,
+  single_loop r recs [] = Ok d ->
+  ad_get d k = match find (fun rec => match mk_annot r rec with Ok (k', _) => okey_eqb k' k | Raise _ => false end) recs with
+               | Some rec => match mk_annot r rec with Ok (_, a) => Some a | Raise _ => None end
+               | None => None
+               end.
+Proof. intros r recs d k H. exact (single_loop_first r recs [] d k H). Qed.
+Print Assumptions C19_first_record_wins.
+
+(* the annotation columns list each distinct identifier, gene name and header once, in the order of the row's proteins *)
+Theorem C19_columns_follow_row_order : forall d ids,
+  annotation_columns d ids =
+  (join [59%N] (dedup [] (map a_id (found_annots d ids))),
+   join [59%N] (dedup [] (flat_map (fun a => match a_gene a with Some g => [g] | None => [] end) (found_annots d ids))),
+   join [59%N] (dedup [] (map a_header (found_annots d ids)))).
+Proof. exact columns_follow_row_order. Qed.
+Print Assumptions C19_columns_follow_row_order.
+
+(* gene-level reporting uses the gene names as identifiers unless most records lack one (then pseudo-genes) *)
+Theorem C19_gene_level_rule : forall files (uu : bool) d,
+  multiple (if uu then IdUniprot else IdFull) files [] = Ok d -> d <> (@nil (okey * annot)) ->
+  get_protein_annotations files true uu =
+  if Nat.ltb (length d) (2 * length (filter (fun kv => has_gene (snd kv)) d))
+  then match multiple IdGene files [] with Ok d2 => Ok (d2, false) | Raise e => Raise e end
+  else Ok (d, true).
+Proof. exact gene_level_rule. Qed.
+Print Assumptions C19_gene_level_rule.
+
+(* non-vacuity: a real UniProt header *)
+Example C19_witness :
+  let h := s2l "sp|P00167|CYB5_HUMAN Cytochrome b5 OS=Homo sapiens OX=9606 GN=CYB5A PE=1 SV=2" in
+  parse_uniprot_id h = s2l "P00167" /\ parse_entry_name h = s2l "CYB5_HUMAN" /\ parse_gene_name h = Some (s2l "CYB5A") /\
+  parse_protein_name h = s2l "Cytochrome b5" /\ parse_organism h = Some (s2l "Homo sapiens OX=9606") /\
+  parse_existence h = Ok (Some 1%N).
+Proof. vm_compute. repeat split; reflexivity. Qed.
